@@ -3,6 +3,8 @@ CONSTANTS
   MaxNodes = 12
   BaseSet <- AllBases
   RunCfgSeq <- RunsQuick
+  Prods <- AllProds
+  KISet <- KIClassic
   EmitMin = 0
   EmitFrom = 2
   EmitMod = 12
